@@ -338,7 +338,8 @@ class DbKey(Base):
     )
 
     def __repr__(self):
-        return "<DbKey(id='%s', name='%s', wif='%s'>" % (self.id, self.name, self.wif)
+        return "<DbKey(id='%s', name='%s', wif='%s'>" % \
+               (self.id, self.name, self.wif if not self.is_private else '<private>')
 
 
 class DbNetwork(Base):
